@@ -475,18 +475,20 @@ func (ex *Exec) call(in *ssa.Call, cc *ssa.CallCommon, r Term) {
 					env.vars[fmt.Sprintf("arg_%d", ai)] = av
 				}
 				t, err := env.Goal(ca.C.E)
+				txt := ca.C.Text
 				if err != nil {
 					if !strings.Contains(err.Error(), "unknown identifier") {
 						unsup("call %d %s assert: %v", ca.Ordinal, ca.Callee, err)
 					}
-					// it speaks about a call that does not exist (any more)
+					// it speaks about a call or local that does not exist (any more)
 					t = "false"
+					txt += "   [cannot be evaluated here: " + err.Error() + "]"
 				}
 				lbl := ca.C.Label
 				if lbl == "" {
 					lbl = fmt.Sprintf("c%d", ci)
 				}
-				ex.addObl("assert", lbl, r, t, pos, ca.C.Text, false)
+				ex.addObl("assert", lbl, r, t, pos, txt, false)
 				if at, err := env.Bool(ca.C.E); err == nil {
 					ex.c.assume(imp(r, at))
 				}
